@@ -403,8 +403,8 @@ func formatNumberVal(val cty.Value) string {
 	bf := val.AsBigFloat()
 
 	if bf.IsInt() {
-		intNum, _ := bf.Int64()
-		return fmt.Sprintf("%d", intNum)
+		// (not via int64, which would clamp whole numbers beyond its range)
+		return bf.Text('f', 0)
 	}
 
 	fNum, _ := bf.Float64()
